@@ -2,6 +2,7 @@ pub mod c01;
 pub mod c01_net;
 pub mod c02;
 pub mod c02_net;
+pub mod c04;
 pub mod c07;
 pub mod c08;
 pub mod c08_net;
@@ -51,6 +52,19 @@ pub fn all() -> Vec<PropDef> {
             run: c02::run,
             replay: c02::replay,
             child: Some(c02::child),
+        },
+        PropDef {
+            id: "C04",
+            level: "exploration",
+            rule: c04::RULE,
+            assumptions: &[
+                "caller/reader interleavings are whatever the OS scheduler and the generated reply scripts produce: sampled, not enumerated (the model-checking clause of the quantifier is outside this technique)",
+                "the notify-reuse clause is exercised on the WebSocket client only: the TCP clients have no notification subscriber",
+                "a call that has not returned within 10 s of its response being sent counts as never receiving it",
+            ],
+            run: c04::run,
+            replay: c04::replay,
+            child: None,
         },
         PropDef {
             id: "C07",
